@@ -52,7 +52,7 @@ Print Assumptions C17_no_hang_close.
 
 (* before the repair (documentation): a server that never sends the greeting, or stalls at the first NOOP of Send *)
 Definition cfg17 (fx : bool) : config :=
-  mkCfg NoTLS false Gen.smtp_auth_noauth None (bs "mail.verif.test") false true true fx.
+  mkCfg NoTLS false Gen.smtp_auth_noauth None (bs "mail.verif.test") false true true fx true.
 
 Example C17_before_fix_refuted_greeting :
   outcome_of (run (dial 8 (cfg17 false)) (world0 (srv0 [DStall] None [] [] HsOk))) = Hang.
